@@ -110,6 +110,25 @@ async fn stale_log(net: &Net) -> Case {
     r.case("C03Case", "stale_log", f, json!({}))
 }
 
+/// a deletion record removes another version than the one it names — here even the version the same
+/// pull has just fetched: B updates the row, A and C delete the old version on two different days;
+/// A holds both records and B's version; B pulling A ends without the row although A shows it
+async fn tomb_other_version(net: &Net) -> Case {
+    let mut r = Runner::new(net, 3).await;
+    let t = T0 + 3000;
+    r.exec(Op::Create { p: 0, x: 1, t }).await;
+    r.exec(Op::Pull { dst: 1, src: 0, t: t + 1 }).await;
+    r.exec(Op::Pull { dst: 2, src: 0, t: t + 2 }).await;
+    r.exec(Op::Update { p: 1, x: 1, t: t + 60_000 }).await;
+    r.exec(Op::Delete { p: 0, x: 1, t: t + 120_000 }).await;
+    r.exec(Op::Delete { p: 2, x: 1, t: t + DAY }).await;
+    r.exec(Op::Pull { dst: 0, src: 2, t: t + DAY + 10 }).await;
+    r.exec(Op::Pull { dst: 0, src: 1, t: t + DAY + 20 }).await;
+    r.exec(Op::Pull { dst: 1, src: 0, t: t + DAY + 30 }).await;
+    let f = r.settle(t + 2 * DAY, 6).await;
+    r.case("C03Case", "tomb_other_version", f, json!({}))
+}
+
 async fn random_case(net: &Net, rng: &mut Rng, deletions: bool) -> Case {
     let n = 2 + rng.below(3) as usize;
     let mut r = Runner::new(net, n).await;
@@ -153,6 +172,7 @@ async fn main() {
     out.push(double_delete(&net).await);
     out.push(shortcut(&net).await);
     out.push(stale_log(&net).await);
+    out.push(tomb_other_version(&net).await);
     for sd in [false, true] { for first in [0, 1] { out.push(delete_vs_update(&net, sd, first).await); } }
     for i in 0..scale(36, 700) {
         let mut r = rng.fork();
